@@ -103,6 +103,8 @@ class DilutionPlan:
         # transfer from stock until the volume is too low
         for c in range(C):
             vtransfer = numpy.round(vmax_arr[c] * ideal_targets[:, c] / stock, 0)
+            # a column can't receive more than its (possibly fractional) vmax
+            vtransfer = numpy.minimum(vtransfer, numpy.floor(vmax_arr[c]))
             if all(vtransfer >= min_transfer):
                 instructions.append((c, 0, "stock", vtransfer))
                 # compute the actually achieved target concentration
